@@ -32,7 +32,7 @@ mod asset {
 
 const NOW0: u32 = 10;
 const BAD: i64 = -999_999;
-const UNTIL: u32 = 500;
+const UNTIL: u32 = 90_000;   // far beyond any run, time_passes() included
 
 struct Sys {
     e: Env,
@@ -235,6 +235,7 @@ fn main() {
                 t.reset(sys.reset_event());
                 let mut last = sys.obs();
                 for _ in 0..len {
+                    time_passes(&sys.e, &mut r, 700);
                     let own = *pick(&mut r, &users);
                     let oper = if r.gen_bool(0.7) { own } else { *pick(&mut r, &users) };
                     let recv = if r.gen_bool(0.6) { own } else { *pick(&mut r, &users) };
